@@ -196,7 +196,7 @@ func init() {
 				"setIndex.OpenValueCursor/fwd", "setIndex.OpenValueCursor/rev", "setIndex.OpenKeyCursor/fwd", "setIndex.OpenKeyCursor/rev",
 				"GetRelatedEntitiesCursor/fwd", "GetRelatedEntitiesCursor/rev", "LinkCollection.IterateLinks", "RefCountedLinkCollection.IterateLinks/fwd", "RefCountedLinkCollection.IterateLinks/rev",
 				"setSymbolRuntime.OpenCursor", "IterateIds", "IterateValidIds", "IterateIds(extended child store)", "IterateValidIds(extended child store)", "IterateIds(filtered)", "NewFilteredCursor", "TreeSet.ToCursor/fwd", "TreeSet.ToCursor/rev", "NewUnionSetCursor/fwd", "NewUnionSetCursor/rev",
-				"IteratorMatchingAnyOf/1", "IteratorMatchingAnyOf/2/fwd", "IteratorMatchingAnyOf/2/rev", "IteratorMatchingAllOf/1", "IteratorMatchingAllOf/2", "EmptyCursor", "stackedCursor(dotted set)"}}
+				"IteratorMatchingAnyOf/1", "IteratorMatchingAnyOf/2/fwd", "IteratorMatchingAnyOf/2/rev", "IteratorMatchingAllOf/1", "IteratorMatchingAllOf/2", "IteratorMatchingAllOf/3 order 0", "IteratorMatchingAllOf/3 order 3", "IteratorMatchingAllOf/3 order 5", "IteratorMatchingAllOf/3 order 7", "IteratorMatchingAnyOf/3", "EmptyCursor", "stackedCursor(dotted set)"}}
 		},
 	})
 }
@@ -240,7 +240,7 @@ func runC14(c *core.Ctx, idx int) {
 	defer func() { _ = db.Close(); _ = os.Remove(path) }()
 	ist, hst := sc.St("items"), sc.St("hubs")
 	// second role "odd" for every other item (for AllOf/AnyOf with two values)
-	var odd, both []string
+	var odd, both, hi, oddHi []string
 	err = db.Update(nil, func(ctx boltz.MutateContext) error {
 		tx := ctx.Tx()
 		raw, err := tx.CreateBucketIfNotExists([]byte("raw"))
@@ -279,6 +279,13 @@ func runC14(c *core.Ctx, idx int) {
 				roles = append(roles, "odd")
 				odd = append(odd, s)
 				both = append(both, s)
+			}
+			if i14Pos(s) >= 3 { // a third role for the upper part of the universe
+				roles = append(roles, "hi")
+				hi = append(hi, s)
+				if i%2 == 1 {
+					oddHi = append(oddHi, s)
+				}
 			}
 			ent := &schema.Ent{Id: s, Typ: "items", V: map[string]any{"roles": roles, "tags": []string{"t-" + s, "shared"}, "extra": "x"}}
 			target := ist
@@ -383,6 +390,15 @@ func runC14(c *core.Ctx, idx int) {
 		add(c14Kind{name: "IteratorMatchingAnyOf/1", set: ne, open: func() ast.SetCursor { return ist.Store.IteratorMatchingAnyOf(roles, []string{"r"})(tx, true) }})
 		add(c14Kind{name: "IteratorMatchingAllOf/1", set: odd, open: func() ast.SetCursor { return ist.Store.IteratorMatchingAllOf(roles, []string{"odd"})(tx, true) }})
 		add(c14Kind{name: "IteratorMatchingAllOf/2", set: both, open: func() ast.SetCursor { return ist.Store.IteratorMatchingAllOf(roles, []string{"r", "odd"})(tx, true) }})
+		// three and four required values in every order (the first one picks the index bucket, the rest filter), with a repeat
+		for pi, vals := range [][]string{{"r", "odd", "hi"}, {"r", "hi", "odd"}, {"odd", "r", "hi"}, {"odd", "hi", "r"}, {"hi", "r", "odd"}, {"hi", "odd", "r"}, {"hi", "r", "odd", "hi"}, {"r", "r", "odd", "hi"}} {
+			vals := vals
+			add(c14Kind{name: fmt.Sprintf("IteratorMatchingAllOf/3 order %d", pi), set: oddHi, open: func() ast.SetCursor { return ist.Store.IteratorMatchingAllOf(roles, vals)(tx, true) }})
+		}
+		for _, rev := range []bool{false, true} {
+			rev := rev
+			add(c14Kind{name: "IteratorMatchingAnyOf/3", reverse: rev, set: sortedUnion(hi, odd), open: func() ast.SetCursor { return ist.Store.IteratorMatchingAnyOf(roles, []string{"hi", "odd", "no-such-role"})(tx, !rev) }})
+		}
 		add(c14Kind{name: "EmptyCursor", seekable: true, set: nil, open: func() ast.SetCursor { return ast.EmptyCursor }})
 		add(c14Kind{name: "EmptyCursor", set: nil, open: func() ast.SetCursor { return ast.NewEmptyCursor() }})
 		add(c14Kind{name: "EmptyCursor", set: nil, open: func() ast.SetCursor { return ast.OpenEmptyCursor(tx, true) }})
